@@ -46,6 +46,8 @@ type Job struct {
 	PreAudit   bool              `json:"pre_audit,omitempty"`
 	ForceOrder map[string]int    `json:"force_order,omitempty"`
 	ReadFault *ReadFaultSpec `json:"read_fault,omitempty"` // the Nth successful read of a file with this suffix fails with EMFILE
+	XDev  string `json:"xdev,omitempty"` // this directory is on another device: renames across its boundary fail with EXDEV
+	TwoWF bool `json:"two_wf,omitempty"` // build the workflow twice (two Workflow objects), run both
 	NoRaceReport bool            `json:"no_race_report,omitempty"` // race build used only to make memory accesses scheduling points (races themselves are C12's)
 	ForceAll   int               `json:"force_all"`
 	Replay     []vs.Choice       `json:"replay,omitempty"`
@@ -269,6 +271,17 @@ func (r *runner) body() {
 		return
 	}
 	b := r.spec.build(r.env)
+	if r.job.TwoWF {
+		// a second workflow object is constructed while goroutines of the first one exist
+		// (parameter feeders start at construction), then both are run one after the other
+		b2 := r.spec.build(r.env)
+		r.spec.run(b)
+		r.spec.run(b2)
+		vs.Event("RET")
+		r.ret = vs.Snapshot()
+		vs.Note("COMPLETED")
+		return
+	}
 	r.spec.run(b)
 	vs.Event("RET")
 	r.ret = vs.Snapshot()
@@ -369,6 +382,25 @@ func runWorkflowJob(job *Job, res *Result) {
 	vs.SimExec = r.env.simExec
 	vs.CrashHook = r.crashHook
 	vs.FSHook = r.fsHook
+	vs.RenameFault = nil
+	if job.XDev != "" {
+		// the directory job.XDev (relative to the working directory) is on "another device":
+		// a rename across its boundary fails with EXDEV, as rename(2) does
+		xd := filepath.Join(r.dir, job.XDev) + "/"
+		vs.RenameFault = func(a, b string) error {
+			abs := func(p string) string {
+				if !filepath.IsAbs(p) {
+					p = filepath.Join(r.dir, p)
+				}
+				return filepath.Clean(p) + "/"
+			}
+			if strings.HasPrefix(abs(a), xd) != strings.HasPrefix(abs(b), xd) {
+				vs.Note("EXDEV:" + normPath(b))
+				return &os.LinkError{Op: "rename", Old: a, New: b, Err: syscall.EXDEV}
+			}
+			return nil
+		}
+	}
 	vs.ReadFault = nil
 	if job.ReadFault != nil {
 		vs.ReadFault = func(p string) error {
